@@ -59,10 +59,16 @@ def _cmp_loop_form(rows):
         bytecmps = []
         for (e, lab, n) in r.conds:
             pe = ir.peel(e)
+            x = noneq = None
             if pe[0] == 'discr':
                 x = ir.peel(pe[1])
-                if x[0] == 'call' and x[1].endswith("::cmp") and len(x[2]) == 2 and all(ir.peel(a)[0] == 'call' and ir.peel(a)[1] in FOLDS for a in x[2]):
-                    bytecmps.append((x, lab))
+                noneq = (lab[0] == 'otherwise' and 0 in lab[1]) or (lab[0] == 'case' and lab[1] != 0)
+            elif pe[0] == 'call' and pe[1] in ("std::cmp::Ordering::is_ne", "std::cmp::Ordering::is_eq") and pe[2] and dispatch_truth(lab) is not None:
+                # `let ord = a.cmp(b); if ord.is_ne() { return ord }`
+                x = ir.peel(pe[2][0])
+                noneq = dispatch_truth(lab) == pe[1].endswith("is_ne")
+            if x is not None and x[0] == 'call' and x[1].endswith("::cmp") and len(x[2]) == 2 and all(ir.peel(a)[0] == 'call' and ir.peel(a)[1] in FOLDS for a in x[2]):
+                bytecmps.append((x, ('otherwise', (0,)) if noneq else ('case', 0)))
         is_byte_ret = False
         if r.end == 'return':
             if r.ret is None:
